@@ -127,7 +127,7 @@ pub fn run(args: &Args) -> i32 {
         }
     }
     rep.finish(
-        "BFS over worlds of real replicas; for every distinct document reached and every causally closed head set above the base (plus cuts through the base history): fork_at(H) has heads H, holds exactly ancestors(H) and equals the reference interpreter on them; every *_at(H) read (get/get_all/keys/length/text/marks/get_marks/spans/values/map_range/list_range for all sub-ranges/hydrate/parents/cursor and cursor position for every index and move mode) equals the plain read on the fork; plus a 40-change chain crossing the clock cache step",
+        "BFS over worlds of real replicas; for every distinct document reached and every causally closed head set above the base (plus cuts through the base history): fork_at(H) has heads H, holds exactly ancestors(H) and equals the reference interpreter on them; every *_at(H) read (get/get_all/keys/length/text/marks/get_marks/spans/values/map_range/list_range for all sub-ranges/hydrate/parents/cursor and cursor position for every index and move mode) equals the plain read on the fork; plus a 40-change chain crossing the clock cache step, read again after an actor that sorts before / between / after the document's actors was added to and removed from the actor table by a transaction that leaves no change (same-value put, rollback)",
         &["head sets are derived from Change::deps() by the harness (every consistent cut, capped per document)"],
         ex,
     )
@@ -135,6 +135,7 @@ pub fn run(args: &Args) -> i32 {
 
 fn chain_check(enc: TextEncoding, rep: &Report) -> Result<(), Violation> {
     use automerge::transaction::Transactable;
+    use automerge::ReadDoc as _;
     use automerge::ROOT;
     let mut d = crate::world::base_b1(enc).fork().with_actor(crate::world::actor(0x10));
     let mut e = d.fork().with_actor(crate::world::actor(0x90));
@@ -160,6 +161,39 @@ fn chain_check(enc: TextEncoding, rep: &Report) -> Result<(), Violation> {
         check_at(&d, &g, hs, enc)?;
         rep.count("head_sets_checked", 1);
         rep.count("chain_head_sets", 1);
+    }
+    // actor churn: an actor that sorts before / between / after the document's actors opens a
+    // transaction that leaves no change behind (a put of the value already there, and an edit that is
+    // rolled back), so it is added to and removed from the actor table while cached clocks exist;
+    // every historical read must still agree with fork_at
+    for visitor in [0x00u8, 0x50, 0xf0] {
+        for rollback in [false, true] {
+            let mut dd = d.clone().with_actor(crate::world::actor(visitor));
+            let cur = dd.get(ROOT, "a").ok().flatten().map(|(v, _)| v.into_owned());
+            {
+                let mut tx = dd.transaction();
+                if rollback {
+                    tx.put(ROOT, "zz", 1).unwrap();
+                    tx.rollback();
+                } else {
+                    if let Some(automerge::Value::Scalar(sv)) = cur {
+                        tx.put(ROOT, "a", sv.into_owned()).unwrap();
+                    }
+                    tx.commit();
+                }
+            }
+            if dd.get_heads() != d.get_heads() {
+                return Err(Violation::new("fork_at-differential", "chain:actor-churn:heads", format!("a transaction of actor {:02x} that leaves no change behind moved the heads", visitor)));
+            }
+            for hs in sets.iter() {
+                check_at(&dd, &g, hs, enc).map_err(|mut v| {
+                    v.site = format!("{}:after-actor-churn", v.site);
+                    v
+                })?;
+                rep.count("head_sets_checked", 1);
+                rep.count("chain_head_sets_after_actor_churn", 1);
+            }
+        }
     }
     Ok(())
 }
